@@ -294,7 +294,7 @@ std::vector<Sub> vh_subs() {
   {
     Sub s;
     s.name = "module";
-    s.fields = {{"k", 1, 16}, {"a_size", 0, 5}, {"dft_size", 0, 5}, {"big_size", 0, 5}, {"a_pad", 0, 3}, {"variant", 0, 1}, {"fam", 0, 7}, {"prefill", 0, 3},
+    s.fields = {{"k", 0, 16}, {"a_size", 0, 5}, {"dft_size", 0, 5}, {"big_size", 0, 5}, {"a_pad", 0, 3}, {"variant", 0, 1}, {"fam", 0, 7}, {"prefill", 0, 3},
                 {"seed", 0, INT64_MAX - 1}};
     s.run = [](const Vals& v, Ctx& c) {
       uint64_t as = v[1], ds = v[2], bs = v[3];
